@@ -464,3 +464,25 @@ package types
 //@   loop 2 invariant inner: forall k int :: 0 <= k && k < $idx(2) && backend.Paths[k] != nil && backend.Paths[k].AuthExternal.AuthBackendName != "" ==>
 //@       in(backend.Paths[k].AuthExternal.AuthBackendName, usedNames) && usedNames[backend.Paths[k].AuthExternal.AuthBackendName]
 //@ end
+
+// C01 — a removed userlist leaves the collection (the next reader of the secret
+// re-creates it from the current secret) and is remembered in itemsDel
+//@ func (*Userlists).RemoveAll
+//@   props C01 C07
+//@   assumes maps: u.items != nil && u.itemsDel != nil && u.items != u.itemsDel
+//@   ensures gone:  forall k int :: 0 <= k && k < len(userlists) ==> !in(userlists[k], u.items)
+//@   ensures moved: forall n string :: old(in(n, u.items)) && !in(n, u.items) ==> in(n, u.itemsDel) && u.itemsDel[n] == old(u.items[n])
+//@   loop 1 invariant maps:  u.items == old(u.items) && u.itemsDel == old(u.itemsDel) && u.items != u.itemsDel && 0 <= $idx(1) && $idx(1) <= len(userlists)
+//@   loop 1 invariant gone:  forall k int :: 0 <= k && k < $idx(1) ==> !in(userlists[k], u.items)
+//@   loop 1 invariant moved: forall n string :: old(in(n, u.items)) && !in(n, u.items) ==> in(n, u.itemsDel) && u.itemsDel[n] == old(u.items[n])
+//@   loop 1 invariant kept:  forall n string :: in(n, u.items) ==> old(in(n, u.items)) && u.items[n] == old(u.items[n])
+//@ end
+
+// C03 — a host is served over TLS iff it has a certificate of its own, or the
+// default certificate is wanted AND http requests are redirected to https
+//@ func (*hostResolver).UseTLS
+//@   props C03
+//@   modifies nothing
+//@   ensures def: result == (*h.crtFilename != "" || (*h.useDefaultCrt && *h.followRedirect))
+//@ end
+
